@@ -15,7 +15,7 @@
    accepted by the closability analysis [well_posed] (DESIGN.md section 7/C06) -- C06_complete.
    The implementation-level oracle checks completion on every generated case. *)
 From Coq Require Import List ZArith QArith Ascii String Bool.
-From GBS Require Import Model.PyStr Model.Num Model.Bond Model.Select Model.Gen Proofs.BondP Proofs.GenP Proofs.GenFuel Props.GenExample.
+From GBS Require Import Model.PyStr Model.Num Model.Bond Model.Select Model.Gen Proofs.BondP Proofs.GenP Proofs.GenFuel Props.GenExample Src.SrcGen Proofs.GenSrcP.
 Import ListNotations.
 
 Theorem C06_all_used_partial : forall els pk tg g infos st,
@@ -44,6 +44,21 @@ Print Assumptions C06_finalize_partial.
 Theorem C06_terminates : forall els pk tg, run_gen els pk tg <> OutOfFuel.
 Proof. exact run_gen_never_out_of_fuel. Qed.
 Print Assumptions C06_terminates.
+
+(* tie T: Stochastic.generate and SmilesToken.generate written over the decision expressions REGENERATED from the source (Src/SrcGen.v,
+   Src/SrcCore.v; the statement skeletons -- get_start, add_repeat_unit, the growth loop, finalize_mol -- are checked by the translator)
+   are, for every state of the run monad, the generator model of the theorems in this file *)
+Theorem C06_stochastic_generate_is_source : forall s ei prefix st, gen_stoch_src s ei prefix st = gen_stoch s ei prefix st.
+Proof. exact gen_stoch_is_source. Qed.
+Print Assumptions C06_stochastic_generate_is_source.
+
+Theorem C06_token_generate_is_source : forall tok ei prefix st, gen_token_src tok ei prefix st = gen_token tok ei prefix st.
+Proof. exact gen_token_is_source. Qed.
+Print Assumptions C06_token_generate_is_source.
+
+Theorem C06_finalize_is_source : forall s ei g st, finalize_src s ei g st = finalize s ei g st.
+Proof. exact finalize_is_source. Qed.
+Print Assumptions C06_finalize_is_source.
 
 Example C06_example :
   match run_gen ex1_els ex1_picks ex1_targets with
